@@ -26,14 +26,17 @@ CBMC_CHECKS = ["--bounds-check", "--pointer-check", "--div-by-zero-check",
 DEFAULT_SOLVER = ["--sat-solver", "cadical"]
 MEM_KB = 14 * 1024 * 1024
 
+_re_flags = re.M
+import threading
+_heavy_lock = threading.Lock()
 RES_RE = re.compile(r"^\[([^\]]+)\] (?:line (\d+) )?(.*): (SUCCESS|FAILURE|UNKNOWN|ERROR)$")
 
 
-def sh(cmd, cwd, timeout, log):
+def sh(cmd, cwd, timeout, log, mem_kb=None):
     """Run cmd (list) under ulimit -v; returns (rc, seconds)."""
     t0 = time.time()
     q = " ".join("'" + c.replace("'", "'\\''") + "'" for c in cmd)
-    full = "ulimit -v %d; exec %s" % (MEM_KB, q)
+    full = "ulimit -v %d; exec %s" % (mem_kb or MEM_KB, q)
     with open(log, "ab") as fh:
         fh.write(("\n$ " + q + "\n").encode())
         fh.flush()
@@ -50,7 +53,8 @@ class Job:
     def __init__(self, id, props, harness, entry, enforce=None, replace=(), loops=True,
                  defs=(), cflags=(), cbmc=(), timeout=900, must_have=(), tier="quick",
                  unwind=None, replay=None, functions=(), note="", solver=None, bounded=None,
-                 expect_fail=(), nondet_static=True):
+                 expect_fail=(), nondet_static=True, mem_gb=None):
+        self.mem_gb = mem_gb  # None: default 14 GB; larger values run one at a time
         self.id = id
         self.props = list(props)
         self.harness = harness
@@ -119,7 +123,11 @@ def run_job(job, tree, trace=False):
         if os.path.exists(res_file):
             os.remove(res_file)
         cmd = cb[:-1] + (["--object-bits", ob] if ob else []) + cb[-1:]
-        rc, secs = sh(cmd, tree, job.timeout, res_file)
+        if job.mem_gb:
+            with _heavy_lock:
+                rc, secs = sh(cmd, tree, job.timeout, res_file, mem_kb=job.mem_gb * 1024 * 1024)
+        else:
+            rc, secs = sh(cmd, tree, job.timeout, res_file)
         txt = open(res_file, errors="replace").read()
         if "too many addressed objects" not in txt:
             break
@@ -143,7 +151,7 @@ def run_job(job, tree, trace=False):
         out["reason"] = "quantifier ignored by back end"
         return out
     # vacuity: canary must be present and must FAIL
-    canaries = [r for r in results if "canary-reachable" in r["desc"]]
+    canaries = [r for r in results if "canary-reachable" in r["desc"] and r["name"].startswith(job.entry + ".")]
     if not canaries or any(r["status"] != "FAILURE" for r in canaries):
         out["reason"] = "vacuity: canary missing or not reachable"
         return out
@@ -153,6 +161,20 @@ def run_job(job, tree, trace=False):
             out["reason"] = "expected obligation class missing: %s (dropped contract?)" % mh
             return out
     fails = [r for r in results if r["status"] == "FAILURE" and "canary-reachable" not in r["desc"]]
+    # obligations that can never witness a property violation: an unwinding assertion (the loop needs a loop
+    # contract or a larger bound) and dfcc's "local variable is not assignable" (a loop without a loop contract
+    # inside a function verified with --apply-loop-contracts; a plain identifier that is not a file-scope object
+    # is a local, and assigning a local is always within any frame).  Alone they mean UNDECIDED.
+    def tool_limit(r):
+        if ".unwind." in r["name"] or "unwinding assertion" in r["desc"]:
+            return True
+        m = re.match(r"Check that ([A-Za-z_][A-Za-z_0-9]*) is assignable$", r["desc"])
+        return bool(m) and ".assigns." in r["name"] and not m.group(1).startswith("VG") and m.group(1) not in job_globals(tree)
+    limits = [r for r in fails if tool_limit(r)]
+    fails = [r for r in fails if not tool_limit(r)]
+    if limits and not fails:
+        out["reason"] = "tool limit, not a violation: %s" % "; ".join("[%s] %s" % (r["name"], r["desc"]) for r in limits[:3])
+        return out
     if not fails and any(r["status"] in ("UNKNOWN", "ERROR") for r in results):
         # (CBMC leaves properties UNKNOWN next to genuine failures; alone they mean undecided)
         out["reason"] = "obligation with UNKNOWN/ERROR status"
@@ -162,6 +184,27 @@ def run_job(job, tree, trace=False):
     if trace:
         out["trace"] = txt
     return out
+
+
+_globals_cache = {}
+
+
+def job_globals(tree):
+    """file-scope identifiers of the repository sources (objects with static storage duration): a write to one
+    of them that a frame does not list IS a genuine frame violation (C18), unlike a write to a local"""
+    if tree not in _globals_cache:
+        names = set()
+        for d in ("src",):   # the example tools are separate programs with their own globals
+            dd = os.path.join(tree, "pre" if d == "src" else d)
+            if not os.path.isdir(dd):
+                dd = os.path.join(tree, d)
+            for f in os.listdir(dd):
+                if f.endswith((".c", ".h")):
+                    txt = open(os.path.join(dd, f), errors="replace").read()
+                    for m in re.finditer(r"^(?:static\s+|extern\s+)?(?:const\s+)?[A-Za-z_][A-Za-z_0-9]*(?:\s+const)?\s+\**\s*([A-Za-z_][A-Za-z_0-9]*)\s*(?:\[[^;{]*\])*\s*(?:=|;)", txt, _re_flags):
+                        names.add(m.group(1))
+        _globals_cache[tree] = names
+    return _globals_cache[tree]
 
 
 def build_tree(tree):
